@@ -17,10 +17,13 @@ EXPLANATION = (
     '(node.lineno, node.col_offset) of that node with no arithmetic - CPython guarantees this is the first '
     'character of the identifier (of the except keyword for handlers) on ASCII lines; R2 lint, location '
     'and all_names hand out the stored declared_at itself (no arithmetic, no other field) paired with the '
-    "same object's filename, so every entry point reports the same position; R3 exactly the kinds without "
-    'a node of their own (import aliases, def, class) obtain declared_at from the text search '
-    'SourceScope.find_id_loc started at the statement, whose fallback is the statement start. Whether the '
-    'text search lands on the right occurrence for every layout is NOT decided (string-valued question).')
+    "same object's filename, so every entry point reports the same position; R3 the kinds without "
+    'a node of their own (import aliases, def, class) obtain declared_at from the identifier text search (the method of '
+    'SourceScope or Source that hands its first parameter to str.find, wherever it lives) started at the statement, whose '
+    'fallback is the statement start and whose delimiter sets hold no identifier character, or from an expression over parser '
+    'positions and identifier lengths; either way the position is computed on a corpus of 39 layouts (CRLF, continuation lines, '
+    'comments, keywords as prefixes) by interpreting supp\'s own code and must read the bound identifier there. Layouts outside '
+    'the corpus are NOT decided (string-valued question).')
 TECHNIQUE = 'position-provenance analysis on visitor summaries (abstract interpretation) + copy/derivation rules'
 
 LINTER = 'supp/linter.py'
